@@ -235,8 +235,8 @@ MC_PROPS = ["TypeOK", "PrecedenceRespected", "DenyOverAllow", "DenyMonotone", "P
 
 
 def run_mc(ctx, cfg, workers):
-    res = tlc.run(ctx, "IfacePolicy", cfg, workers=workers, coverage=False, timeout=ctx.pick(900, 2400),
-                  heap=ctx.pick("4g", "8g"), name="tlc_" + cfg.replace(".cfg", ""))
+    res = tlc.run(ctx, "IfacePolicy", cfg, workers=workers, coverage=False, timeout=ctx.pick(1200, 3000),
+                  heap="4g", name="tlc_" + cfg.replace(".cfg", ""))
     if not res.ok:
         # a counterexample on the evaluator itself is a design problem of the spec, never a VIOLATION
         raise InfraError("spec-level counterexample / failure in %s: %s\n%s" % (cfg, res.summary(), common.tail(res.out, 30)))
@@ -252,7 +252,7 @@ def run_table(ctx, cands_path, rows, k):
     out = os.path.join(d, "table.json")
     res = tlc.run(ctx, "TraceIfacePolicy", "TraceIfacePolicy.cfg", workers=1,
                   env={"VERIF_CANDS": cands_path, "VERIF_ROWS": rp, "VERIF_OUT": out},
-                  timeout=ctx.pick(900, 2400), heap=ctx.pick("3g", "6g"), name="tlc_table%d" % k)
+                  timeout=ctx.pick(1200, 3000), heap=ctx.pick("2g", "4g"), name="tlc_table%d" % k)
     if not res.ok or not os.path.exists(out):
         raise InfraError("table evaluation failed (chunk %d): %s\n%s" % (k, res.summary(), common.tail(res.out, 30)))
     with open(out) as f:
@@ -266,7 +266,7 @@ def run_driver(ctx, tb, dom_path, cands_path, rows):
     out = os.path.join(d, "obs.ndjson")
     rc, o = goharness.run_test_bin(ctx, tb, "^Test$", args=["-check.f", "TestVerifIfacePolicy"],
                                    env={"VERIF_DOMAIN": dom_path, "VERIF_CANDS": cands_path, "VERIF_ROWS": rp,
-                                        "VERIF_OUT": out}, timeout=ctx.pick(900, 2400))
+                                        "VERIF_OUT": out}, timeout=ctx.pick(1200, 3000))
     goharness.check_driver(rc, o, "ifacepolicy driver")
     stats = [ln for ln in o.split("\n") if ln.startswith("VERIF-C21")]
     return common.read_ndjson(out), (stats[0] if stats else "")
@@ -285,6 +285,38 @@ def describe(dom, g, row):
         d["add_deny"] = {"level": row["add"][0],
                          "constraint": dom["cons"][g.side(row["kind"], row["add"][0])][row["add"][1] - 1]}
     return d
+
+
+def cons_str(c):
+    out = []
+    for k, v in sorted(c.items()):
+        if isinstance(v, dict):
+            v = {a: b for a, b in v.items() if b != "-"}
+        if v in ([], {}, "-"):
+            continue
+        out.append("%s=%s" % (k, json.dumps(v, separators=(",", ":"), sort_keys=True)))
+    return "{" + " ".join(out) + "}"
+
+
+def alts_str(al):
+    return al["lit"] if al["lit"] != "alts" else "[" + " | ".join(cons_str(c) for c in al["alts"]) + "]"
+
+
+def rules_str(dom, g, row):
+    """Compact, human readable rendering of the rules of a row (for samples and violation descriptions)."""
+    out = []
+    for l in range(1, 5):
+        side, idx = g.side(row["kind"], l), row["li"][l - 1]
+        if not side or idx == 0:
+            continue
+        r = dom["rules"][side][idx - 1]
+        if r["short"] != "-":
+            out.append("L%d=%s" % (l, r["short"]))
+        else:
+            out.append("L%d=(allow:%s deny:%s)" % (l, alts_str(r["allow"]), alts_str(r["deny"])))
+    if row["add"]:
+        out.append("+deny@L%d:%s" % (row["add"][0], cons_str(dom["cons"][g.side(row["kind"], row["add"][0])][row["add"][1] - 1])))
+    return " ".join(out) or "no rules"
 
 
 def row_key(g, row):
@@ -369,7 +401,7 @@ def compare(ctx, dom, g, table, obs, cfgs, mcres, stats):
     bad_ids = set(r["id"] for r, _ in bad)
     violations = []
     for r, mism in bad[:60]:
-        violations.append(Violation(key="C21 " + row_key(g, r), desc="; ".join(mism),
+        violations.append(Violation(key="C21 " + row_key(g, r), desc="; ".join(mism) + " -- rules: " + rules_str(dom, g, r),
                                     replay={"row": describe(dom, g, r), "real": obs[r["id"]], "specified": table[r["id"]]}))
     if len(bad) > len(violations):
         violations[-1].desc += " (%d rows disagree in total)" % len(bad)
@@ -401,7 +433,8 @@ def compare(ctx, dom, g, table, obs, cfgs, mcres, stats):
         if r["add"] and not obs[r["base"]]["ok"]:
             refused_pairs += 1
         if len(samples) < 5 and (r["id"] * 7919 + ctx.seed) % 997 == 0:
-            samples.append({"row": row_key(g, r), "specified": {k: t[k] for k in ("ok", "why", "level", "any")},
+            samples.append({"row": row_key(g, r), "rules": rules_str(dom, g, r),
+                            "specified": {k: t[k] for k in ("ok", "why", "level", "any")},
                             "real": {k: o.get(k) for k in ("ok", "why", "level", "any", "err")}})
     if not samples:
         r = rows[0]
@@ -432,7 +465,7 @@ def compare(ctx, dom, g, table, obs, cfgs, mcres, stats):
         "driver": stats,
     }
     assumptions = [
-        "regular expressions in name/attribute constraints are literals or the alternation A|B; attribute values are scalars (strings)",
+        "regular expressions in name/attribute constraints are literals or the alternation A|B (also as a list of alternative matchers); attribute values are strings or lists of strings",
         "sub-rules of other kinds and the other side's rule in a snap-declaration are not inputs of a decision (exercised with contrary decoys on the real code)",
         "DenyMonotone is about extending the deny list of an existing rule; a NEW more specific rule takes precedence by design",
         "InstallCandidateMinimalCheck ignores deny-installation by design; its verdicts are bound to the table but excluded from DenyOverAllow",
